@@ -596,7 +596,7 @@ pub fn run_c10(cx: &Cx) -> PropResult {
     let mut r = PropResult::new(
         acc,
         "exploration",
-        "graphs: EXHAUSTIVELY every rooted digraph with 1-4 nodes whose nodes have ordered out-edge lists of length <= 2 over any targets (self-loops, diamonds, back-edges, parallel edges), all nodes reachable; randomly: 1-60 nodes (one case in eight: 100-400 nodes, so that object numbers cross the one-byte var-int boundary), out-degree <= 5; two wide graphs (a root over 300 / 16 400 leaves) whose leaves with the object numbers around 128 / 16 384 are offered twice. A harness codec written in safe code offers node addresses as identities (in one third / one half of the cases it additionally offers each node's embedded header, a distinct object of another type that lives at the node's own address, which must get its own number; in a quarter / half of the cases every node body also carries one of four DeduplicatedString tags, so that string ids and object numbers are assigned side by side in one stream; in a fifth / a third of the cases the nodes with a label divisible by 3 also offer one shared zero-sized sentinel object) (store_ref_or_object on the writer; state_mut().store_ref right after allocation and try_read_ref + downcast on the reader). Oracles: bytes == model (first offer: 00 + body, later offers: var-u32 of the 1-based first-encounter number, pre-order), objects written == reachable nodes, encoding terminates on cycles; decoded graph isomorphic by a simultaneous walk (labels, ordered edges; two edges reach the same original node iff the decoded targets are pointer-equal); a reference rewritten to objects+1, objects+1000 or u32::MAX decodes to Err(InvalidRefId), also right after a larger stream was decoded on the same thread, and so does a stream whose very first marker is rewritten to an object number. Non-trivial = a cycle or a node with in-degree >= 2. Nodes that are evolved records themselves (label, then a version-1 record with the edge list in a chunk of its own): random graphs up to 60 nodes and chains / rings of 100-400 nodes, i.e. hundreds of chunks nested in each other. Tracked objects as record fields: a hand-expanded derive of struct Holder { a: u8, g1: Slot, s: String, g2: Slot, g3: Slot } (Slot offers a node of one shared graph) as a version-0 record and with g2 / g3 / s introduced by FieldAdded steps (so the slots live in different chunks), followed by one more byte in the stream; and through the REAL derive macro, struct DHolder { g3, a, g2, g1, s } with g2 and g3 added by evolution steps and declared before older fields; bytes must equal the model (markers and back-references inside the chunk of their field, objects numbered in field order) and decoding must restore the sharing between the fields.",
+        "graphs: EXHAUSTIVELY every rooted digraph with 1-4 nodes whose nodes have ordered out-edge lists of length <= 2 over any targets (self-loops, diamonds, back-edges, parallel edges), all nodes reachable; randomly: 1-60 nodes (one case in eight: 100-400 nodes, so that object numbers cross the one-byte var-int boundary), out-degree <= 5; two wide graphs (a root over 300 / 16 400 leaves) whose leaves with the object numbers around 128 / 16 384 are offered twice. A harness codec written in safe code offers node addresses as identities (in one third / one half of the cases it additionally offers each node's embedded header, a distinct object of another type that lives at the node's own address, which must get its own number; in a quarter / half of the cases every node body also carries one of four DeduplicatedString tags, so that string ids and object numbers are assigned side by side in one stream; in a fifth / a third of the cases the nodes with a label divisible by 3 also offer one shared zero-sized sentinel object) (store_ref_or_object on the writer; state_mut().store_ref right after allocation and try_read_ref + downcast on the reader). Oracles: bytes == model (first offer: 00 + body, later offers: var-u32 of the 1-based first-encounter number, pre-order), objects written == reachable nodes, encoding terminates on cycles; decoded graph isomorphic by a simultaneous walk (labels, ordered edges; two edges reach the same original node iff the decoded targets are pointer-equal); a reference rewritten to objects+1, objects+1000 or u32::MAX decodes to Err(InvalidRefId), also right after a larger stream was decoded on the same thread, and so does a stream whose very first marker is rewritten to an object number. Non-trivial = a cycle or a node with in-degree >= 2. Nodes that are evolved records themselves (label, then a version-1 record with the edge list in a chunk of its own): random graphs up to 60 nodes and chains / rings of 100-400 nodes, i.e. hundreds of chunks nested in each other. Tracked objects as record fields: a hand-expanded derive of struct Holder { a: u8, g1: Slot, s: String, g2: Slot, g3: Slot } (Slot offers a node of one shared graph) as a version-0 record and with g2 / g3 / s introduced by FieldAdded steps (so the slots live in different chunks), followed by one more byte in the stream; and through the REAL derive macro, struct DHolder { g3, a, g2, g1, s } with g2 and g3 added by evolution steps and declared before older fields; bytes must equal the model (markers and back-references inside the chunk of their field, objects numbered in field order) and decoding must restore the sharing between the fields. In three cases out of ten the edge lists go through the library's own sequence codec (serialize_iterator over an iterator that hides its length: marker-per-element form; read as Vec of slots), under the same reference faults. Graphs of evolved-record nodes are in two cases out of three written as three values through ONE context (root, another node, root again) and read back from one context: bytes against the model, one decoded object per original node across the values.",
     );
     r.exhaustive = Some(true);
     r.extra = json!({"exhaustive_note": "exhaustive for graphs of <= 4 nodes with out-degree <= 2; larger graphs are sampled", "exhaustive_max_nodes": max_n});
